@@ -337,3 +337,190 @@ Proof.
   intros (He & Hr & Hm) Hl Hk. unfold data_ok. rewrite (He l), Hl. cbn [option_map]. rewrite <- Hr.
   change (sd_gmn (strip_def d)) with (sd_gmn d). rewrite Hk. auto.
 Qed.
+
+(* ------------------------------------------------------------ the stream simulation *)
+
+(* the two runs stay related; the stripped run meets the time predicate when the original does *)
+Theorem strip_sim : forall rs a b a',
+  st_rel a b -> denote_from a rs = Some a' ->
+  exists b', denote_from b (strip (ss_env a) rs) = Some b' /\ st_rel a' b' /\
+    (no_time_quirk_from a rs = true -> no_time_quirk_from b (strip (ss_env a) rs) = true).
+Proof.
+  induction rs as [|r rs IH]; intros a b a' Hrel Hden.
+  - cbn [denote_from strip no_time_quirk_from] in *. injection Hden as <-. exists b. auto.
+  - cbn [denote_from] in Hden. destruct (denote_record a r) as [a1|] eqn:Ea; [|discriminate].
+    cbn [no_time_quirk_from]. rewrite Ea.
+    destruct r as [l be gmn fds devflag devs | l pay dev | l off pay dev].
+    + (* definition *)
+      destruct (def_sim a b l be gmn fds devflag devs a1 Hrel Ea) as (b1 & Eb & Hrel1 & Henv).
+      cbn [strip]. rewrite <- Henv.
+      destruct (IH a1 b1 a' Hrel1 Hden) as (b' & Hb' & Hrel' & Hq').
+      exists b'. cbn [denote_from no_time_quirk_from]. rewrite Eb.
+      split; [exact Hb'|]. split; [exact Hrel'|].
+      intros Hq. apply andb_prop in Hq. destruct Hq as [_ Hq]. cbn [record_time_ok andb]. exact (Hq' Hq).
+    + (* plain data record *)
+      cbn [denote_record] in Ea. rewrite record_time_ok_data. cbn [strip].
+      destruct (lookup_def (ss_env a) l) as [d|] eqn:El.
+      2:{ unfold denote_data in Ea. rewrite El in Ea. discriminate. }
+      destruct (denote_data_lengths a l None pay dev d a1 El Ea) as [Ep Henv].
+      destruct (known_msg (sd_gmn d)) eqn:Ek.
+      * destruct (data_known_sim a b l None pay dev d a1 Hrel El Ek Ea) as (b1 & Eb & Hrel1).
+        rewrite <- Henv.
+        destruct (IH a1 b1 a' Hrel1 Hden) as (b' & Hb' & Hrel' & Hq').
+        exists b'. cbn [denote_from no_time_quirk_from denote_record]. rewrite Eb.
+        split; [exact Hb'|]. split; [exact Hrel'|].
+        intros Hq. apply andb_prop in Hq. destruct Hq as [Hq0 Hq]. rewrite record_time_ok_data.
+        rewrite (data_ok_known_sim a b l None pay d Hrel El Ek Ep Hq0). cbn [andb]. exact (Hq' Hq).
+      * pose proof (data_unknown_sim a b l pay dev d a1 Hrel El Ek Ea) as Hrel1.
+        rewrite <- Henv.
+        destruct (IH a1 b a' Hrel1 Hden) as (b' & Hb' & Hrel' & Hq').
+        exists b'. split; [exact Hb'|]. split; [exact Hrel'|].
+        intros Hq. apply andb_prop in Hq. destruct Hq as [_ Hq]. exact (Hq' Hq).
+    + (* compressed-timestamp data record *)
+      cbn [denote_record] in Ea. rewrite record_time_ok_comp. cbn [strip].
+      destruct (4 <=? l) eqn:E4; [discriminate|].
+      destruct (lookup_def (ss_env a) l) as [d|] eqn:El.
+      2:{ unfold denote_data in Ea. rewrite El in Ea. discriminate. }
+      destruct (denote_data_lengths a l (Some off) pay dev d a1 El Ea) as [Ep Henv].
+      destruct (known_msg (sd_gmn d)) eqn:Ek.
+      * destruct (data_known_sim a b l (Some off) pay dev d a1 Hrel El Ek Ea) as (b1 & Eb & Hrel1).
+        rewrite <- Henv.
+        destruct (IH a1 b1 a' Hrel1 Hden) as (b' & Hb' & Hrel' & Hq').
+        exists b'. cbn [denote_from no_time_quirk_from denote_record]. rewrite E4, Eb.
+        split; [exact Hb'|]. split; [exact Hrel'|].
+        intros Hq. apply andb_prop in Hq. destruct Hq as [Hq0 Hq]. rewrite record_time_ok_comp.
+        rewrite (data_ok_known_sim a b l (Some off) pay d Hrel El Ek Ep Hq0). cbn [andb]. exact (Hq' Hq).
+      * destruct (comp_unknown_sim a b l off pay dev d a1 Hrel El Ek Ea) as (b1 & Eb & Hrel1).
+        rewrite <- Henv.
+        destruct (IH a1 b1 a' Hrel1 Hden) as (b' & Hb' & Hrel' & Hq').
+        exists b'. cbn [denote_from no_time_quirk_from denote_record]. rewrite E4, Eb.
+        split; [exact Hb'|]. split; [exact Hrel'|].
+        intros Hq. apply andb_prop in Hq. destruct Hq as [Hq0 Hq]. rewrite record_time_ok_comp.
+        rewrite (data_ok_unknown_sim a b l (Some off) pay d Hrel El Ek Hq0). cbn [andb]. exact (Hq' Hq).
+Qed.
+
+Theorem strip_denote_from : forall rs a b a',
+  st_rel a b -> denote_from a rs = Some a' ->
+  exists b', denote_from b (strip (ss_env a) rs) = Some b' /\ st_rel a' b'.
+Proof.
+  intros rs a b a' Hrel Hden. destruct (strip_sim rs a b a' Hrel Hden) as (b' & Hb' & Hrel' & _).
+  exists b'. split; assumption.
+Qed.
+
+(* C02 unknown_skipped: stripping all unknown content changes neither the decoded messages nor the time reference *)
+Theorem unknown_skipped : forall rs ss, denote rs = Some ss ->
+  exists ss', denote (strip [] rs) = Some ss' /\ ss_msgs ss' = ss_msgs ss /\ ss_ref ss' = ss_ref ss.
+Proof.
+  intros rs ss Hden. unfold denote in *.
+  destruct (strip_denote_from rs ss_init ss_init ss st_rel_init Hden) as (ss' & Hden' & _ & Hr & Hm).
+  exists ss'. cbn [ss_init ss_env] in Hden'. split; [exact Hden'|]. split; symmetry; assumption.
+Qed.
+
+Theorem strip_no_time_quirk : forall rs ss, denote rs = Some ss ->
+  no_time_quirk rs = true -> no_time_quirk (strip [] rs) = true.
+Proof.
+  intros rs ss Hden Hq. unfold denote, no_time_quirk in *.
+  destruct (strip_sim rs ss_init ss_init ss st_rel_init Hden) as (ss' & _ & _ & Hq').
+  exact (Hq' Hq).
+Qed.
+
+(* ------------------------------------------------------------ the stripped stream is serialisable *)
+
+Lemma all_bytes_flat_filter (q : sfdef -> bool) : forall fds,
+  all_bytes (flat_map ser_fdef fds) = true -> all_bytes (flat_map ser_fdef (filter q fds)) = true.
+Proof.
+  induction fds as [|f r IH]; cbn [flat_map filter]; [auto|].
+  rewrite all_bytes_app_eq. intros H. apply andb_prop in H. destruct H as [H1 H2].
+  destruct (q f); cbn [flat_map]; [rewrite all_bytes_app_eq, H1, (IH H2); reflexivity|exact (IH H2)].
+Qed.
+
+Lemma rec_wf_def l be gmn fds devflag devs :
+  rec_wf (RDef l be gmn fds devflag devs) = true -> rec_wf (RDef l be gmn (keep_fds gmn fds) false []) = true.
+Proof.
+  unfold rec_wf. intros H. apply andb_prop in H. destruct H as [Hb H2].
+  apply andb_prop in H2. destruct H2 as [Hg Hc].
+  rewrite keep_fds_filter, Hg, (forallb_filter _ _ _ Hc), andb_true_r.
+  cbn [ser_record] in *.
+  rewrite !all_bytes_app_eq in *.
+  apply andb_prop in Hb. destruct Hb as [Hh Hb]. apply andb_prop in Hb. destruct Hb as [Hp Hb].
+  apply andb_prop in Hb. destruct Hb as [Hn Hb]. apply andb_prop in Hb. destruct Hb as [Hf _].
+  rewrite Hp, (all_bytes_flat_filter _ _ Hf). cbn [all_bytes forallb andb] in *.
+  rewrite !andb_true_r in *.
+  apply andb_prop in Hh. destruct Hh as [Hh1 Hh2]. rewrite Hh2, andb_true_r.
+  pose proof (filter_length_le' (listed gmn) fds) as Hle.
+  unfold is_byte in *. apply N.ltb_lt in Hh1, Hn.
+  apply andb_true_intro. split; apply N.ltb_lt; [destruct devflag; lia|lia].
+Qed.
+
+Lemma rec_wf_data l pay dev gmn fds :
+  rec_wf (RData l pay dev) = true -> rec_wf (RData l (strip_pay gmn fds pay) []) = true.
+Proof.
+  unfold rec_wf. rewrite !andb_true_r. cbn [ser_record]. unfold all_bytes at 1 3. cbn [forallb].
+  fold (all_bytes (pay ++ dev)). fold (all_bytes (strip_pay gmn fds pay ++ [])).
+  rewrite !all_bytes_app_eq. intros H. apply andb_prop in H. destruct H as [H1 H2].
+  apply andb_prop in H2. destruct H2 as [H2 _].
+  rewrite H1, (all_bytes_strip_pay _ _ _ H2). reflexivity.
+Qed.
+
+Lemma rec_wf_data_nodev l pay dev : rec_wf (RData l pay dev) = true -> rec_wf (RData l pay []) = true.
+Proof.
+  unfold rec_wf. rewrite !andb_true_r. cbn [ser_record]. unfold all_bytes at 1 3. cbn [forallb].
+  fold (all_bytes (pay ++ dev)). fold (all_bytes (pay ++ [])).
+  rewrite !all_bytes_app_eq. intros H. apply andb_prop in H. destruct H as [H1 H2].
+  apply andb_prop in H2. destruct H2 as [H2 _]. rewrite H1, H2. reflexivity.
+Qed.
+
+Lemma rec_wf_comp l off pay dev gmn fds :
+  rec_wf (RComp l off pay dev) = true -> rec_wf (RComp l off (strip_pay gmn fds pay) []) = true.
+Proof.
+  unfold rec_wf. intros H. apply andb_prop in H. destruct H as [H Ho]. rewrite Ho, andb_true_r.
+  cbn [ser_record] in *. unfold all_bytes in H |- *. cbn [forallb] in H |- *.
+  fold (all_bytes (pay ++ dev)) in H. fold (all_bytes (strip_pay gmn fds pay ++ [])).
+  rewrite !all_bytes_app_eq in *. apply andb_prop in H. destruct H as [H1 H2].
+  apply andb_prop in H2. destruct H2 as [H2 _].
+  rewrite H1, (all_bytes_strip_pay _ _ _ H2). reflexivity.
+Qed.
+
+Lemma rec_wf_comp_nodev l off pay dev : rec_wf (RComp l off pay dev) = true -> rec_wf (RComp l off pay []) = true.
+Proof.
+  unfold rec_wf. intros H. apply andb_prop in H. destruct H as [H Ho]. rewrite Ho, andb_true_r.
+  cbn [ser_record] in *. unfold all_bytes in H |- *. cbn [forallb] in H |- *.
+  fold (all_bytes (pay ++ dev)) in H. fold (all_bytes (pay ++ [])).
+  rewrite !all_bytes_app_eq in *. apply andb_prop in H. destruct H as [H1 H2].
+  apply andb_prop in H2. destruct H2 as [H2 _]. rewrite H1, H2. reflexivity.
+Qed.
+
+Lemma rec_wf_comp_bare l off pay dev : rec_wf (RComp l off pay dev) = true -> rec_wf (RComp l off [] []) = true.
+Proof.
+  unfold rec_wf. intros H. apply andb_prop in H. destruct H as [H Ho]. rewrite Ho, andb_true_r.
+  cbn [ser_record app] in *. unfold all_bytes in H |- *. cbn [forallb] in H |- *.
+  apply andb_prop in H. destruct H as [H1 _]. rewrite H1. reflexivity.
+Qed.
+
+Theorem strip_stream_wf : forall rs env, stream_wf rs = true -> stream_wf (strip env rs) = true.
+Proof.
+  unfold stream_wf. induction rs as [|r rs IH]; intros env H; [reflexivity|].
+  cbn [forallb] in H. apply andb_prop in H. destruct H as [Hr H].
+  destruct r as [l be gmn fds devflag devs | l pay dev | l off pay dev]; cbn [strip].
+  - cbn [forallb]. rewrite (rec_wf_def _ _ _ _ _ _ Hr). apply IH. exact H.
+  - destruct (lookup_def env l) as [d|]; [destruct (known_msg (sd_gmn d))|]; cbn [forallb].
+    + rewrite (rec_wf_data _ _ _ _ _ Hr). apply IH. exact H.
+    + apply IH. exact H.
+    + rewrite (rec_wf_data_nodev _ _ _ Hr). apply IH. exact H.
+  - destruct (lookup_def env l) as [d|]; [destruct (known_msg (sd_gmn d))|]; cbn [forallb].
+    + rewrite (rec_wf_comp _ _ _ _ _ _ Hr). apply IH. exact H.
+    + rewrite (rec_wf_comp_bare _ _ _ _ Hr). apply IH. exact H.
+    + rewrite (rec_wf_comp_nodev _ _ _ _ Hr). apply IH. exact H.
+Qed.
+
+(* ------------------------------------------------------------ the head of the stream survives *)
+
+Theorem strip_starts_with_file_id : forall rs, starts_with_file_id rs = true -> starts_with_file_id (strip [] rs) = true.
+Proof.
+  intros rs Hs.
+  destruct rs as [|[l be gmn fds devflag devs| |] [|[| l' pay dev |] rest]]; try discriminate.
+  cbn [starts_with_file_id] in Hs. apply andb_prop in Hs. destruct Hs as [Eg El].
+  apply N.eqb_eq in Eg, El. subst gmn l'.
+  cbn [strip]. rewrite lookup_def_cons, N.eqb_refl. cbn [sd_gmn]. rewrite known_fileid.
+  cbn [starts_with_file_id]. rewrite !N.eqb_refl. reflexivity.
+Qed.
